@@ -11,6 +11,7 @@ import (
 
 	"github.com/smart-core-os/sc-api/go/traits"
 	"github.com/smart-core-os/sc-golang/internal/testproto"
+	"github.com/smart-core-os/sc-golang/pkg/cmp"
 	"github.com/smart-core-os/sc-golang/verifharness/lib"
 	"google.golang.org/protobuf/proto"
 	pref "google.golang.org/protobuf/reflect/protoreflect"
@@ -101,9 +102,12 @@ func main() {
 	mons := newMonitors(res)
 	runIEEE(f, res, drv)
 	runDirected(f, res, drv, mons)
+	runUnknown(f, res, drv, mons)
+	runWire(f, res, drv, mons)
 	runEquator(f, res, drv, mons)
 	runValues(f, res, drv, mons)
 	runPull(f, res, drv, mons)
+	runParked(f, res, drv, mons)
 	runLossy(f, res, mons)
 	delete(res.Extra, "ieee_tie")
 	if err := res.Write(f.Out); err != nil {
@@ -155,6 +159,33 @@ func replay(f lib.Flags) int {
 			lib.Fatal(err)
 		}
 		out = pc.monitor(mons, pc.runCode())
+	case "malformed":
+		x, _ := hex.DecodeString(fmt.Sprint(in["x"]))
+		y, _ := hex.DecodeString(fmt.Sprint(in["y"]))
+		mx, my := withUnknown(x, false), withUnknown(y, false)
+		var want string
+		var r bool
+		if p, msg := lib.Catch(func() { r = proto.Equal(mx, my) }); p {
+			want = "panic:" + msg
+		} else {
+			want = b2s(r)
+		}
+		out = callCmp(cmp.Equal(), mx, my)
+		if out != want {
+			mons.equal.Violate(rp.Signature, "cmp.Equal() and proto.Equal behave differently on these raw unknown bytes", in, want, out)
+		}
+	case "cpark":
+		var c pcaseJSON
+		if err := reJSON(in, &c); err != nil {
+			lib.Fatal(err)
+		}
+		pc, err := c.decode()
+		if err != nil {
+			lib.Fatal(err)
+		}
+		po := pc.runParked()
+		pc.monitorParked(mons, po)
+		out = fmt.Sprintf("%d window(s) err=%q", len(po.windows), po.err)
 	default:
 		fmt.Println("replay: unknown op", in["op"])
 		return 2
